@@ -56,6 +56,40 @@ def history(rnd, maxlen):
     return " | ".join(ops)
 
 
+def xhistory(rnd):
+    """histories over state that is not Thread_Storage: per-engine type names and user conversions, with several engines alive on the
+    same threads.  Judged on the implementation alone: what an engine observes must equal what it observes when only its own
+    operations are replayed."""
+    ops, live, nxt = [], {}, 0
+    for _ in range(rnd.randrange(8, 26)):
+        x = rnd.random()
+        free = [s for s in range(NSLOT) if s not in live.values()]
+        if (x < 0.2 or not live) and free and nxt < 6:
+            s = rnd.choice(free)
+            ops.append("C %d %d %d" % (nxt, s, rnd.randrange(NTHREAD)))
+            live[nxt] = s
+            nxt += 1
+            continue
+        if not live:
+            break
+        e = rnd.choice(list(live))
+        t = rnd.randrange(NTHREAD) if rnd.random() < 0.3 else 0      # mostly one thread: per-thread caches are shared there
+        if x < 0.32:
+            ops.append("T %d %d %d %d" % (e, t, rnd.randrange(2), rnd.randrange(3)))
+        elif x < 0.52:
+            ops.append("N %d %d %d" % (e, t, rnd.randrange(2)))
+        elif x < 0.64:
+            ops.append("V %d %d %d" % (e, t, rnd.randrange(2)))
+        elif x < 0.88:
+            ops.append("U %d %d %d" % (e, t, rnd.randrange(2)))
+        elif x < 0.94:
+            ops.append("S %d %d %s %d" % (e, t, rnd.choice(NAMES), rnd.randrange(1, 100)))
+        else:
+            ops.append("D %d %d" % (e, t))
+            del live[e]
+    return " | ".join(ops)
+
+
 def gen_cases(tier, seed):
     rnd = random.Random(seed * 15485863 + 14)
     return [history(rnd, 30) for _ in range({"quick": 400, "thorough": 4000}[tier])]
@@ -192,6 +226,31 @@ def check(tier, seed):
             if nfail <= 6:
                 c.fail("engine %d's observations differ from those of replaying only its own operations on the implementation" % b,
                        {"case": cases[ci], "engine": b, "in_full_history": want, "alone": pi})
+    # ---- type names and conversions: projection oracle only
+    rnd = random.Random(seed * 977 + 141)
+    xcases = [xhistory(rnd) for _ in range({"quick": 300, "thorough": 3000}[tier])]
+    ximpl = run(hbin, xcases)
+    xpj = []
+    for ci, case in enumerate(xcases):
+        for b in sorted(set(engine_of(o) for o in case.split(" | "))):
+            p, idx = project(case, b)
+            xpj.append((ci, b, p, idx))
+    xalone = run(hbin, [p for _, _, p, _ in xpj])
+    for (ci, b, p, idx), pi in zip(xpj, xalone):
+        c.cov["evaluations"] += 1
+        c.dist["type-name/conversion projections"] = c.dist.get("type-name/conversion projections", 0) + 1
+        full = ximpl[ci].split(" | ")
+        if "BADCASE" in ximpl[ci] or ximpl[ci].startswith("SIG(") or ximpl[ci].startswith("EXIT("):
+            if not "BADCASE" in ximpl[ci]:
+                c.fail("the host died in a history over several engines", {"case": xcases[ci], "observed": ximpl[ci][:100]})
+            continue
+        want = " | ".join(full[k] for k in idx if k < len(full))
+        if pi != want:
+            nfail += 1
+            if nfail <= 6:
+                c.fail("engine %d's observations (type names, conversions) differ from those of replaying only its own operations on the implementation" % b,
+                       {"case": xcases[ci], "engine": b, "in_full_history": want, "alone": pi,
+                        "format": "T e t p n: register Name_n for C++ type Probe_p | N e t p: name of Probe_p | V e t c: add conversion c | U e t c: use conversion c"})
     c.failures.sort(key=lambda f: len(f["case"]["case"]))
     c.cov["distinct_nontrivial"] = len(nontrivial)
     c.cov["programs"] = len(cases)
